@@ -47,7 +47,8 @@ def _run(case):
             exp.solve_power(tab, "power") if False else None
         except Exception:
             power_ok = False
-    return objs, expx.classify(log, len(data["variant"])), raised, plain_calls, len(data["variant"])
+    return (objs, expx.classify(log, len(data["variant"]), list(data), len(set(data["variant"]))), raised, plain_calls,
+            len(data["variant"]))
 
 
 def _expected_from_model(model_trace, plain_calls):
@@ -155,7 +156,7 @@ def oracle(ctx, deep=False):
                 tt.Experiment(objs).solve_power(tab, "power")
         finally:
             B.cleanup()
-        obs = expx.classify(log, len(data["variant"]))
+        obs = expx.classify(log, len(data["variant"]), list(data), len(set(data["variant"])))
         ctx.evaluations += 1
         if not (len(obs) == 1 and obs[0]["kind"] == "aggr" and obs[0]["rows"] == 1 and obs[0]["grouped"] == 0):
             ctx.violations.append({"what": "solve_power did not materialise exactly one one-row aggregate", "detail": str(obs),
